@@ -76,6 +76,8 @@ type History struct {
 	// announcement of the transaction; Steps = caller / chain events
 	Replies [][]PeerScript `json:"replies,omitempty"`
 	Steps   []EStep        `json:"steps,omitempty"`
+	// family n: scenario on a full client (nopeers|late-peer|silent-peer)
+	Net string `json:"net,omitempty"`
 	// family t (timed): a stream of caller events shorter apart than the
 	// rebroadcast interval
 	Stream        string `json:"stream,omitempty"` // conf|bc
@@ -686,6 +688,10 @@ func main() {
 			h.ID = tBase + i
 			jobs = append(jobs, job{h: h})
 		}
+		for i, h := range corpusN() {
+			h.ID = nBase + i
+			jobs = append(jobs, job{h: h})
+		}
 	}
 
 	var mu sync.Mutex
@@ -699,13 +705,15 @@ func main() {
 			defer wg.Done()
 			defer func() { <-sem }()
 			h := &j.h
-			if h.Family == "v" || h.Family == "e" || h.Family == "t" {
+			if h.Family == "v" || h.Family == "e" || h.Family == "t" || h.Family == "n" {
 				var f []c.ImplFailure
 				switch h.Family {
 				case "v":
 					f = runV(h)
 				case "e":
 					f = runE(h)
+				case "n":
+					f = runN(h, a.Out)
 				default:
 					f = runT(h)
 				}
@@ -761,8 +769,9 @@ func main() {
 	for i := range hs {
 		h := &hs[i]
 		var t, sig string
-		if h.Family == "e" {
+		if h.Family == "e" || h.Family == "n" {
 			t, sig = eTerm(h)
+			sig = h.Net + sig
 			ets = append(ets, t)
 			rep.Histogram["e2e_steps"] += len(h.Steps)
 			for _, st := range h.Steps {
